@@ -14,6 +14,7 @@
 
 #include <array>
 #include <atomic>
+#include <future>
 #include <memory>
 #include <mutex>
 #include <string>
@@ -169,10 +170,21 @@ namespace Pistache::Aio
 
         void run() override
         {
+            assignThread();
+            loop();
+        }
+
+        // The handlers' thread id is read from other threads (Transport::handleNewPeer on
+        // the acceptor thread): AsyncImpl publishes it before its run() returns.
+        void assignThread()
+        {
             handlers_.forEachHandler([](const std::shared_ptr<Handler> handler) {
                 handler->context_.tid = std::this_thread::get_id();
             });
+        }
 
+        void loop()
+        {
             while (!shutdown_)
                 runOnce();
         }
@@ -506,14 +518,21 @@ namespace Pistache::Aio
 
             void run()
             {
-                thread = std::thread([=]() {
+                std::promise<void> assigned;
+                auto done = assigned.get_future();
+                thread    = std::thread([=, &assigned]() {
                     if (!threadsName_.empty())
                     {
                         pthread_setname_np(pthread_self(),
                                            threadsName_.substr(0, 15).c_str());
                     }
-                    sync->run();
+                    sync->assignThread();
+                    assigned.set_value();
+                    sync->loop();
                 });
+                // do not return (and let the caller start accepting) before the handlers
+                // know which thread they run on
+                done.wait();
             }
 
             void shutdown() { sync->shutdown(); }
